@@ -29,92 +29,12 @@ func runC17(r *Report, p *Program) {
 	c17R2(h)
 	c17R3(h)
 	c17R4(h)
+	c17Tables(h)
 }
 
 func c17R1(h H) {
 	r := h.r
-	r.Rule("R1", "the body is wrapped before the handlers see it: in Limit.ServeHTTP the store r.Body = MaxBytesReader(w, r.Body, <entry>.Limit) is guarded by exactly {r.Body != nil, loop continuation, Path.Matches(<same entry>.Path)}, cannot be executed twice for one request, and precedes Next on that path; parseLimits calls SortPathLimits on the slice before storing it into the site config; the comparator orders by longer path first", 4)
-	fn := h.fn("R1", limPkg, "Limit.ServeHTTP")
-	if fn != nil {
-		n := 0
-		allInstrs(fn, func(in ssa.Instruction) {
-			st, ok := in.(*ssa.Store)
-			if !ok {
-				return
-			}
-			fa, ok := st.Addr.(*ssa.FieldAddr)
-			if !ok || fieldName(fa.X.Type(), fa.Field) != "Body" {
-				return
-			}
-			n++
-			mk, isMk := st.Val.(*ssa.Call)
-			shape := isMk && strings.HasSuffix(calleeName(&mk.Call), "limits.MaxBytesReader")
-			var limitArg ssa.Value
-			if shape {
-				limitArg = mk.Call.Args[2]
-			} else {
-				// the same reader built in place: &maxBytesReader{…, n: <limit>}
-				v := st.Val
-				if mi, ok := v.(*ssa.MakeInterface); ok {
-					v = mi.X
-				}
-				if al, ok := v.(*ssa.Alloc); ok && strings.HasSuffix(al.Type().String(), "limits.maxBytesReader") {
-					for _, ref := range *al.Referrers() {
-						fa, ok := ref.(*ssa.FieldAddr)
-						if !ok || fieldName(fa.X.Type(), fa.Field) != "n" {
-							continue
-						}
-						for _, r2 := range *fa.Referrers() {
-							if s2, ok := r2.(*ssa.Store); ok && s2.Addr == ssa.Value(fa) {
-								limitArg = s2.Val
-								shape = true
-							}
-						}
-					}
-				}
-			}
-			limOK := false
-			var entry ssa.Value
-			if shape {
-				// the limit handed to the reader: possibly through a merge of "found"/"not found" results, of which
-				// only the values that can reach this store count
-				limOK = true
-				for _, lv := range valuesAt(fn, limitArg, in) {
-					p, root := fieldPath(lv)
-					if p != "Limit" || (entry != nil && !sameValue(root, entry) && root != entry) {
-						limOK = false
-					}
-					entry = root
-				}
-			}
-			var match, body bool
-			var extra []string
-			for _, g := range guardAtoms(fn, nil, in) {
-				switch {
-				case isNilCmpOfField(g, "Body", false):
-					body = true
-				case isLoopCond(g):
-				case isConstFlag(g.Cond):
-					// a found/not-found flag: the conditions under which it is set appear as guards themselves
-				default:
-					if c, ok := g.Cond.(*ssa.Call); ok && strings.HasSuffix(calleeName(&c.Call), "httpserver.Path).Matches") && g.Pos {
-						p, root := fieldPath(c.Call.Args[1])
-						if p == "Path" && (entry == nil || sameValue(root, entry) || root == entry) {
-							match = true
-							continue
-						}
-					}
-					extra = append(extra, describe(g.Cond))
-				}
-			}
-			r.Check(shape && limOK && match && body && len(extra) == 0, "R1", "limits.Limit.ServeHTTP/wrap-body", st.Pos(),
-				"every body on a matching path is wrapped with that path's limit — independent of Content-Length, method or framing", append([]string{sprintf("shape:%v limit-field:%v matches:%v body!=nil:%v", shape, limOK, match, body)}, extra...)...)
-			r.Check(!canReach(fn, in, in, cut{}), "R1", "limits.Limit.ServeHTTP/first-match-wins", st.Pos(), "after the first (longest) matching entry wrapped the body no further entry wraps it again")
-		})
-		if n == 0 {
-			r.Fail("R1", "limits.Limit.ServeHTTP/wrap-body", fn.Pos(), "the request body is never replaced by a limiting reader")
-		}
-	}
+	r.Rule("R1", "the body is wrapped before the handlers see it: Limit.ServeHTTP, evaluated abstractly (E10) for every list of up to three path limits, every set of matching entries and body present/absent, invokes the next handler exactly once with the body wrapped by a reader carrying the first matching entry's limit, or untouched when nothing matches or there is no body; parseLimits calls SortPathLimits on the slice before storing it into the site config; the comparator orders by longer path first", 3)
 	if pl := h.fn("R1", limPkg, "parseLimits"); pl != nil {
 		sorts := callsTo(pl, "limits.SortPathLimits")
 		n := 0
@@ -198,105 +118,7 @@ func lenOfParamField(v ssa.Value) int {
 }
 
 func c17R2(h H) {
-	r := h.r
-	r.Rule("R2", "sticky error and limit+1 read: maxBytesReader.Read invokes the underlying Read only on the err==nil edge, slices the buffer to at most n+1, and on the over-limit path stores httpserver.ErrMaxBytesExceeded into its sticky error and returns it; the sticky error is only ever the source's error or that sentinel, and every other return follows a Read of the source", 5)
-	fn := h.fn("R2", limPkg, "(*maxBytesReader).Read")
-	if fn == nil {
-		return
-	}
-	var reads []ssa.Instruction
-	allInstrs(fn, func(in ssa.Instruction) {
-		if c := callOf(in); c != nil && c.IsInvoke() && c.Method.Name() == "Read" {
-			reads = append(reads, in)
-		}
-	})
-	errNil := nilEdges(fn, true, func(v ssa.Value) bool { return readsField(v, "err") })
-	for _, rd := range reads {
-		r.Check(onlyVia(fn, rd, errNil), "R2", "limits.(*maxBytesReader).Read/sticky-error-first", rd.Pos(), "once the limit was hit every further Read fails without touching the source")
-	}
-	if len(reads) == 0 {
-		r.Unresolve("R2", "maxBytesReader.Read: underlying Read invoke not found")
-	}
-	plus1 := false
-	allInstrs(fn, func(in ssa.Instruction) {
-		sl, ok := in.(*ssa.Slice)
-		if !ok || sl.High == nil {
-			return
-		}
-		if derives(sl.High, func(v ssa.Value) bool {
-			b, ok := v.(*ssa.BinOp)
-			if !ok || b.Op != token.ADD {
-				return false
-			}
-			c, okc := constInt(b.Y)
-			return okc && c == 1 && readsField(b.X, "n")
-		}, flowOpts{}) {
-			plus1 = true
-		}
-	})
-	r.Check(plus1, "R2", "limits.(*maxBytesReader).Read/reads-limit-plus-one", fn.Pos(), "the reader asks for at most remaining+1 bytes: enough to tell 'exactly at the limit' from 'over it'")
-	stored := false
-	allInstrs(fn, func(in ssa.Instruction) {
-		st, ok := in.(*ssa.Store)
-		if !ok {
-			return
-		}
-		fa, ok := st.Addr.(*ssa.FieldAddr)
-		if ok && fieldName(fa.X.Type(), fa.Field) == "err" && isGlobalLoad(st.Val, "ErrMaxBytesExceeded") {
-			stored = true
-		}
-	})
-	r.Check(stored, "R2", "limits.(*maxBytesReader).Read/records-sentinel", fn.Pos(), "going over the limit is recorded as ErrMaxBytesExceeded")
-	// the reader never invents an end of stream: its sticky error is only ever the source's own error or the
-	// too-large sentinel, and every return other than the sticky one and the empty-buffer one follows a Read of the source
-	allInstrs(fn, func(in ssa.Instruction) {
-		st, ok := in.(*ssa.Store)
-		if !ok {
-			return
-		}
-		fa, ok := st.Addr.(*ssa.FieldAddr)
-		if !ok || fieldName(fa.X.Type(), fa.Field) != "err" {
-			return
-		}
-		fromSrc := false
-		for _, rd := range reads {
-			if ex, isEx := st.Val.(*ssa.Extract); isEx && ex.Tuple == rd.(ssa.Value) && ex.Index == 1 {
-				fromSrc = true
-			}
-		}
-		r.Check(fromSrc || isGlobalLoad(st.Val, "ErrMaxBytesExceeded"), "R2", "limits.(*maxBytesReader).Read/sticky-error-source:"+describe(st.Val), st.Pos(),
-			"the error the reader remembers is the source's own error or the too-large sentinel — never a made-up end of stream that would pass a truncated body off as complete", describe(st.Val))
-	})
-	errNonNil := nilEdges(fn, false, func(v ssa.Value) bool { return readsField(v, "err") })
-	k := 0
-	for _, rt := range realReturns(fn) {
-		if onlyVia(fn, rt, errNonNil) {
-			continue // sticky
-		}
-		empty := false
-		for _, g := range guardAtoms(fn, nil, rt) {
-			if x, kind, c, ok := intCmp(g.Cond); ok && c == 0 && ((kind == "eq" && g.Pos) || (kind == "ne" && !g.Pos) || (kind == "gt" && !g.Pos)) {
-				if call, isCall := x.(*ssa.Call); isCall && calleeName(&call.Call) == "builtin.len" {
-					if _, isP := call.Call.Args[0].(*ssa.Parameter); isP {
-						empty = true
-					}
-				}
-			}
-		}
-		if empty {
-			continue
-		}
-		k++
-		ok := mustPass(fn, rt, func(in ssa.Instruction) bool {
-			for _, rd := range reads {
-				if in == rd {
-					return true
-				}
-			}
-			return false
-		})
-		r.Check(ok, "R2", sprintf("limits.(*maxBytesReader).Read/return-after-source-read#%d", k), rt.Pos(), "apart from the sticky error and the empty buffer, the reader answers only after asking the source (it cannot know the body ended at the limit without reading one byte more)")
-	}
+	h.r.Rule("R2", "the limiting reader as a decision table (E10): maxBytesReader.Read is evaluated for every remaining allowance 0–3, buffer length 0–5, remembered error {none, some error, too-large} and every (count, error) the source can return; it must return the remembered error without touching the source, (0, nil) for an empty buffer, and otherwise read the source exactly once asking for min(len(p), remaining+1) bytes, pass the result through and account for it when within the allowance, and cut it to the allowance with ErrMaxBytesExceeded (remembered from then on, allowance 0) when beyond", 1)
 }
 
 func c17R3(h H) {
@@ -341,22 +163,66 @@ func c17R3(h H) {
 			continue
 		}
 		good := 0
-		for _, c := range findCalls(fn, func(in ssa.Instruction) bool { return isCallTo(in, "errors.Is") }) {
-			if !isGlobalLoad(callOf(c).Args[1], "ErrMaxBytesExceeded") {
-				continue
+		// the test may live in the handler or in a helper it was split into; a predicate function that returns
+		// errors.Is(err, ErrMaxBytesExceeded) on all paths counts as the test
+		isTooLargePred := func(f *ssa.Function) bool {
+			if f == nil || len(f.Blocks) == 0 || f.Signature.Results().Len() != 1 {
+				return false
 			}
-			te := guardEdges(fn, true, func(v ssa.Value) bool { return v == c.(ssa.Value) })
-			ok413 := false
-			for e := range te {
-				s := e.From.Succs[e.Idx]
-				if rt, ok := lastInstr(s).(*ssa.Return); ok {
-					if code, ok := constInt(retResults(rt)[0]); ok && code == 413 {
-						ok413 = true
-					}
+			rets := returnValues(f, 0)
+			if len(rets) == 0 {
+				return false
+			}
+			for _, v := range rets {
+				c, ok := v.(*ssa.Call)
+				if !ok || calleeName(&c.Call) != "errors.Is" || !isGlobalLoad(c.Call.Args[1], "ErrMaxBytesExceeded") {
+					return false
 				}
 			}
-			if ok413 {
-				good++
+			return true
+		}
+		for _, g := range withHelpers(fn, 3) {
+			tests := findCalls(g, func(in ssa.Instruction) bool {
+				c := callOf(in)
+				if isCallTo(in, "errors.Is") {
+					return isGlobalLoad(c.Args[1], "ErrMaxBytesExceeded") && !isTooLargePred(g)
+				}
+				return isTooLargePred(c.StaticCallee())
+			})
+			for _, c := range tests {
+				te := guardEdges(g, true, func(v ssa.Value) bool { return v == c.(ssa.Value) })
+				if len(te) == 0 {
+					continue
+				}
+				// some use of the constant 413 (returned, stored, or merged into the status) is reachable only through
+				// the true edge of this test
+				ok413 := false
+				allInstrs(g, func(in ssa.Instruction) {
+					if ok413 {
+						return
+					}
+					if ph, isPhi := in.(*ssa.Phi); isPhi {
+						for k, e := range ph.Edges {
+							if code, ok := constInt(e); ok && code == 413 {
+								if t := lastInstr(ph.Block().Preds[k]); t != nil && onlyVia(g, t, te) {
+									ok413 = true
+								}
+							}
+						}
+						return
+					}
+					for _, op := range in.Operands(nil) {
+						if *op == nil {
+							continue
+						}
+						if code, ok := constInt(*op); ok && code == 413 && onlyVia(g, in, te) {
+							ok413 = true
+						}
+					}
+				})
+				if ok413 {
+					good++
+				}
 			}
 		}
 		r.Check(good >= spec.min, "R3", shortFunc(fn)+"/413-on-too-large", fn.Pos(), sprintf("an exceeded body limit is answered 413 at each of the %d place(s) where this handler consumes the request body", spec.min), sprintf("%d errors.Is→413 site(s)", good))
@@ -591,4 +457,282 @@ func fnPkgVar(fn *ssa.Function, name string) types.Type {
 		return g.Type().(*types.Pointer).Elem()
 	}
 	return nil
+}
+
+// c17Tables: the body-limit handler and its reader as decision tables (E10).
+func c17Tables(h H) {
+	r := h.r
+	// --- Limit.ServeHTTP: which limit wraps the body
+	if fn := h.fn("R1", limPkg, "Limit.ServeHTTP"); fn != nil {
+		limT := fn.Params[0].Type()
+		reqT := fn.Params[2].Type().(*types.Pointer).Elem()
+		var plT types.Type
+		if st, ok := underlying(limT).(*types.Struct); ok {
+			for i := 0; i < st.NumFields(); i++ {
+				if st.Field(i).Name() == "BodyLimits" {
+					plT = underlying(st.Field(i).Type()).(*types.Slice).Elem()
+				}
+			}
+		}
+		bad, nrun := "", 0
+		for n := 0; n <= 3 && bad == "" && plT != nil; n++ {
+			for m := 0; m < 1<<n && bad == ""; m++ {
+				for _, hasBody := range []bool{true, false} {
+					var seenBody aval
+					called := 0
+					env := &absEnv{globals: map[string]*aobj{}, maxSteps: 50000}
+					env.ext = func(callee string, args []aval) (aval, bool) {
+						switch {
+						case strings.HasSuffix(callee, "httpserver.Path).Matches"):
+							if s, ok := args[len(args)-1].(asym); ok {
+								var i int
+								fmt.Sscanf(s.name, "path%d", &i)
+								return abool(m&(1<<i) != 0), true
+							}
+							return aunk{"Matches of something that is not a configured path"}, true
+						case callee == "invoke:ServeHTTP":
+							called++
+							if p, ok := args[2].(aptr); ok {
+								seenBody = env.load(p.obj, "Body")
+							}
+							return atuple{aint(0), anil{}}, true
+						}
+						return nil, false
+					}
+					origBody := aiface{aptr{&aobj{name: "body", typ: types.Typ[types.Int], f: map[string]aval{}}, ""}, types.NewPointer(types.Typ[types.Int])}
+					mk := func() []aval {
+						seenBody, called = nil, 0
+						var entries []aval
+						for i := 0; i < n; i++ {
+							entries = append(entries, astruct{map[string]aval{"Path": asym{fmt.Sprintf("path%d", i)}, "Limit": asym{fmt.Sprintf("limit%d", i)}}})
+						}
+						lim := astruct{map[string]aval{"Next": aiface{aptr{&aobj{name: "next", typ: types.Typ[types.Int], f: map[string]aval{}}, ""}, types.Typ[types.Int]}, "BodyLimits": newVals(entries, plT)}}
+						req := &aobj{name: "request", typ: reqT, f: map[string]aval{}}
+						if hasBody {
+							req.f["Body"] = origBody
+						} else {
+							req.f["Body"] = anil{}
+						}
+						url := &aobj{name: "url", typ: types.Typ[types.Int], f: map[string]aval{}}
+						req.in = func(o *aobj, path string, t types.Type) aval {
+							if path == "URL" {
+								if p, ok := underlying(t).(*types.Pointer); ok {
+									url.typ = p.Elem()
+								}
+								url.in = func(o *aobj, path string, t types.Type) aval {
+									if path == "Path" {
+										return asym{"reqpath"}
+									}
+									return aunk{"url field " + path}
+								}
+								return aptr{url, ""}
+							}
+							return aunk{"request field " + path}
+						}
+						return []aval{lim, anil{}, aptr{req, ""}}
+					}
+					env.runForks(fn, mk, func(res aval, und string, _ int) bool {
+						nrun++
+						desc := fmt.Sprintf("%d limits, matching mask %b, body present=%v", n, m, hasBody)
+						if und != "" {
+							bad = desc + ": undecided — " + und
+							return false
+						}
+						if called != 1 {
+							bad = fmt.Sprintf("%s: the next handler is invoked %d times", desc, called)
+							return false
+						}
+						first := -1
+						for i := 0; i < n; i++ {
+							if m&(1<<i) != 0 {
+								first = i
+								break
+							}
+						}
+						if !hasBody || first < 0 {
+							same := false
+							if !hasBody {
+								_, same = seenBody.(anil)
+							} else if v, ok := seenBody.(aiface); ok {
+								p1, ok1 := v.val.(aptr)
+								p2, _ := origBody.val.(aptr)
+								same = ok1 && p1.obj == p2.obj
+							}
+							if !same {
+								bad = desc + ": the body handed on should be the request's own, got " + describeAval(seenBody)
+								return false
+							}
+							return true
+						}
+						v, ok := seenBody.(aiface)
+						rp, ok2 := v.val.(aptr)
+						if !ok || !ok2 {
+							bad = desc + ": the body handed on is not a limiting reader: " + describeAval(seenBody)
+							return false
+						}
+						fn0, _, fsrc, _ := readerFields(rp.obj.typ)
+						lim := env.load(rp.obj, fn0)
+						src := env.load(rp.obj, fsrc)
+						srcOK := false
+						if sv, ok := src.(aiface); ok {
+							p1, ok1 := sv.val.(aptr)
+							p2, _ := origBody.val.(aptr)
+							srcOK = ok1 && p1.obj == p2.obj
+						}
+						if s, ok := lim.(asym); !ok || s.name != fmt.Sprintf("limit%d", first) || !srcOK {
+							bad = fmt.Sprintf("%s: want the request body wrapped with limit%d (the first matching entry), got limit %s over %s", desc, first, describeAval(lim), describeAval(src))
+							return false
+						}
+						return true
+					})
+				}
+			}
+		}
+		r.Check(bad == "", "R1", "limits.Limit.ServeHTTP/table", fn.Pos(),
+			"for every list of up to three path limits and every set of matching entries the next handler runs exactly once, with the request body wrapped once by a reader carrying the first matching entry's limit — or with the body untouched when nothing matches or there is no body (no dependence on Content-Length, method or framing)",
+			fmt.Sprintf("%d evaluations", nrun), bad)
+	}
+	// --- maxBytesReader.Read
+	if fn := h.fn("R2", limPkg, "(*maxBytesReader).Read"); fn != nil {
+		rdT := fn.Params[0].Type().(*types.Pointer).Elem()
+		fN, fErr, fSrc, fW := readerFields(rdT)
+		if fN == "" || fErr == "" || fSrc == "" {
+			r.Unresolve("R2", "maxBytesReader: fields for the allowance, the remembered error and the source not found by type")
+			return
+		}
+		sentinel := &aobj{name: "ErrMaxBytesExceeded", typ: types.Typ[types.Int], f: map[string]aval{}}
+		bad, nrun := "", 0
+		type srcRes struct {
+			k   int64
+			err string // "", "eof", "other"
+		}
+		for remaining := int64(0); remaining <= 3 && bad == ""; remaining++ {
+			for plen := int64(0); plen <= 5 && bad == ""; plen++ {
+				for _, sticky := range []string{"", "other", "toolarge"} {
+					want := plen
+					if want > remaining+1 {
+						want = remaining + 1
+					}
+					var results []srcRes
+					for k := int64(0); k <= want; k++ {
+						for _, e := range []string{"", "eof", "other"} {
+							results = append(results, srcRes{k, e})
+						}
+					}
+					for _, sr := range results {
+						sr := sr
+						errObjs := map[string]aval{"": anil{}, "eof": aptr{&aobj{name: "io.EOF", typ: types.Typ[types.Int], f: map[string]aval{}}, ""}, "other": aptr{&aobj{name: "some error", typ: types.Typ[types.Int], f: map[string]aval{}}, ""}, "toolarge": aptr{sentinel, ""}}
+						reads := 0
+						var asked int64 = -1
+						env := &absEnv{globals: map[string]*aobj{"ErrMaxBytesExceeded": {name: "ErrMaxBytesExceeded", typ: types.Typ[types.Int], f: map[string]aval{"": aptr{sentinel, ""}}}}, noFork: true, maxSteps: 20000}
+						env.ext = func(callee string, args []aval) (aval, bool) {
+							if callee == "invoke:Read" {
+								reads++
+								if sl, ok := args[1].(avals); ok {
+									asked = int64(len(sl.cells))
+								}
+								return atuple{aint(sr.k), errObjs[sr.err]}, true
+							}
+							return nil, false
+						}
+						rd := &aobj{name: "reader", typ: rdT, f: map[string]aval{fN: aint(remaining), fErr: errObjs[sticky], fW: anil{}, fSrc: aiface{aptr{&aobj{name: "source", typ: types.Typ[types.Int], f: map[string]aval{}}, ""}, types.Typ[types.Int]}}}
+						var buf []aval
+						for i := int64(0); i < plen; i++ {
+							buf = append(buf, aint(0))
+						}
+						var p aval = newVals(buf, types.Typ[types.Uint8])
+						res, und := env.run(fn, []aval{aptr{rd, ""}, p})
+						nrun++
+						desc := fmt.Sprintf("remaining=%d len(p)=%d sticky=%q source returns (%d,%q)", remaining, plen, sticky, sr.k, sr.err)
+						if und != "" {
+							bad = desc + ": undecided — " + und
+							break
+						}
+						tp, ok := res.(atuple)
+						if !ok || len(tp) != 2 {
+							bad = desc + ": unexpected result " + describeAval(res)
+							break
+						}
+						sameErr := func(v aval, which string) bool {
+							if which == "" {
+								_, isNil := v.(anil)
+								return isNil
+							}
+							p1, ok1 := v.(aptr)
+							p2 := errObjs[which].(aptr)
+							return ok1 && p1.obj == p2.obj
+						}
+						var wn int64
+						werr := ""
+						wreads := 0
+						wrem := remaining
+						wsticky := sticky
+						switch {
+						case sticky != "":
+							wn, werr = 0, sticky
+						case plen == 0:
+							wn, werr = 0, ""
+						default:
+							wreads = 1
+							if sr.k <= remaining {
+								wn, werr = sr.k, sr.err
+								wrem = remaining - sr.k
+								wsticky = sr.err
+							} else {
+								wn, werr = remaining, "toolarge"
+								wrem = 0
+								wsticky = "toolarge"
+							}
+						}
+						gn, _ := tp[0].(aint)
+						switch {
+						case int64(gn) != wn || !sameErr(tp[1], werr):
+							bad = fmt.Sprintf("%s: returns (%s, %s), specification says (%d, %q)", desc, describeAval(tp[0]), describeAval(tp[1]), wn, werr)
+						case reads != wreads:
+							bad = fmt.Sprintf("%s: the source is read %d time(s), specification says %d", desc, reads, wreads)
+						case wreads == 1 && asked != want:
+							bad = fmt.Sprintf("%s: asks the source for %d bytes, specification says min(len(p), remaining+1) = %d", desc, asked, want)
+						case !sameErr(env.load(rd, fErr), wsticky):
+							bad = fmt.Sprintf("%s: remembers error %s afterwards, specification says %q", desc, describeAval(env.load(rd, fErr)), wsticky)
+						default:
+							if v, ok := env.load(rd, fN).(aint); !ok || int64(v) != wrem {
+								bad = fmt.Sprintf("%s: remaining allowance afterwards %s, specification says %d", desc, describeAval(env.load(rd, fN)), wrem)
+							}
+						}
+						if bad != "" {
+							break
+						}
+					}
+					if bad != "" {
+						break
+					}
+				}
+			}
+		}
+		r.Check(bad == "", "R2", "limits.(*maxBytesReader).Read/table", fn.Pos(),
+			"for every remaining allowance 0–3, buffer length 0–5, remembered error and every result the source can give, Read returns what the specification says: the remembered error without touching the source; (0, nil) for an empty buffer; otherwise one read of min(len(p), remaining+1) bytes, passed through and accounted when within the allowance, cut to the allowance with the too-large error (remembered from then on) when beyond it",
+			fmt.Sprintf("%d evaluations", nrun), bad)
+	}
+}
+
+// readerFields: the fields of the limiting reader by role (their names are not part of the contract).
+func readerFields(t types.Type) (n, err, src, w string) {
+	st, ok := underlying(t).(*types.Struct)
+	if !ok {
+		return
+	}
+	for i := 0; i < st.NumFields(); i++ {
+		f := st.Field(i)
+		switch ft := f.Type().String(); {
+		case ft == "int64":
+			n = f.Name()
+		case ft == "error":
+			err = f.Name()
+		case ft == "io.ReadCloser" || ft == "io.Reader":
+			src = f.Name()
+		case ft == "net/http.ResponseWriter":
+			w = f.Name()
+		}
+	}
+	return
 }
